@@ -555,6 +555,8 @@ def storage_kwargs(scfg):
     if kind == "geometric" and scfg.get("p") is not None:
         p = scfg["p"]
         kw["constant_probability"] = p[0] / p[1] if isinstance(p, list) else p
+        if scfg.get("p_type"):      # "every p in [0,1]": a probability may well arrive as a narrow NumPy float
+            kw["constant_probability"] = getattr(np, scfg["p_type"])(kw["constant_probability"])
     return kw
 
 
